@@ -16,8 +16,9 @@ import PV.C17.Dec
   Text is a list of scalar values, so `chars().count()` is `List.length`.
 
   Every Rust panic is a value: `Res.panic` in the parser (`i32` overflow of the parenthesis
-  counter), `none` in the formatters (`usize` subtraction in `format_bytes`, `unreachable!()` on a
+  counter), `none` in the formatters (`unreachable!()` on a
   conversion type the caller must not pass, a `format!` precision above `u16::MAX`).
+  `format_bytes` is modelled as repaired by /repo commit 86620af (no panic path left).
   Core Lean only.
 -/
 namespace PV.C19
@@ -296,18 +297,18 @@ def formatString (spec : Spec) (s : List Nat) : List Nat := formatStringWithPrec
 def formatChar (spec : Spec) (c : Nat) : List Nat :=
   formatStringWithPrecision spec [c] (some (.quantity (.amount 1)))
 
-/-- `format_bytes`; `width - bytes.len()` is a `usize` subtraction (panics when negative) -/
-def formatBytes (spec : Spec) (bytes : List Nat) : Option (List Nat) :=
+/-- `format_bytes` (after fix 86620af: `width.saturating_sub(len)`, a lone `.` truncates to nothing) -/
+def formatBytes (spec : Spec) (bytes : List Nat) : List Nat :=
   let bytes := match spec.prec with
     | some (.quantity (.amount p)) => bytes.take (min bytes.length p)
+    | some .dot => bytes.take 0
     | _ => bytes
   match spec.width with
   | some (.amount width) =>
-    if width < bytes.length then none else
-    let fill := max 0 (width - bytes.length)
-    if spec.flags.left then some (bytes ++ List.replicate fill 32)
-    else some (List.replicate fill 32 ++ bytes)
-  | _ => some bytes
+    let fill := width - bytes.length
+    if spec.flags.left then bytes ++ List.replicate fill 32
+    else List.replicate fill 32 ++ bytes
+  | _ => bytes
 
 /-! ## numbers -/
 
@@ -403,6 +404,7 @@ def formatExponent (precision bits : Nat) (upper alt : Bool) : Option (List Nat)
 
 /-- `format_general` on the magnitude (`always_shows_fract = false`) -/
 def formatGeneral (precision bits : Nat) (upper alt : Bool) : Option (List Nat) :=
+  let precision := max precision 1       -- "C and Python treat a precision of 0 as 1 for %g" (668a737)
   if PV.Dec.isNan bits then some (nanText upper)
   else if PV.Dec.isInf bits then some (infText upper)
   else match rustExp bits (precision - 1) with
